@@ -140,6 +140,7 @@ type c04ctx struct {
 	g        *gen
 	branches map[string]bool
 	changed  bool
+	nv       bool // non-validating list (network-acceptor verifier): model op `recn`, no privilege oracle
 }
 
 func (cx *c04ctx) step(author, prev int, cs []content, label string) bool {
@@ -155,40 +156,61 @@ func (cx *c04ctx) step(author, prev int, cs []content, label string) bool {
 		wBefore = w.clone()
 	}
 	err, pan := addSafely(ref, b.raw)
-	if pan != "" {
+	if pan != "" && !cx.nv {
 		r.Violate("C04", "", "acl.panic", "AddRawRecord panicked: "+pan, append(append([]string{}, w.lines...), b.line()))
 		return false
 	}
+	if pan != "" {
+		// a non-validating list fed with a record consensus would never have accepted (nil request
+		// identity); the model says `panic` for exactly these. C11 territory, counted, not judged here.
+		err = fmt.Errorf("panic: %s", pan)
+		r.Count("nv.panic")
+	}
 	post := w.snapshot(ref)
 	e := errEnum(err)
+	if pan != "" {
+		e = "panic"
+	}
 	if strings.HasPrefix(e, "other:") {
 		r.Fatal("unmapped error from AddRawRecord: " + e + " on " + b.line())
 	}
 	impl := "err " + e
 	if err == nil {
-		impl = "ok " + post.String()
 		w.accepted(b)
 		post = w.snapshot(ref) // the new record is now interned
 		impl = "ok " + post.String()
+		if cx.nv {
+			impl = "ok " + w.snapshotNV(ref)
+		}
 	}
-	s.ask("", "acl.apply", w, b.line(), impl)
+	line, stream := b.line(), "acl.apply"
+	if cx.nv {
+		line, stream = "recn"+strings.TrimPrefix(line, "rec"), "acl.apply-novalidate"
+	}
+	s.ask("", stream, w, line, impl)
 	if os.Getenv("ACL_TRACE") != "" && strings.HasPrefix(label, "script.") {
 		fmt.Fprintf(os.Stderr, "%-28s %-60s %s\n", label, b.line(), strings.SplitN(impl, " A[", 2)[0])
 	}
-	r.Count("c04.kind." + label)
-	r.Count("c04.result." + e)
+	pfx := "c04."
+	if cx.nv {
+		pfx = "nv."
+	}
+	r.Count(pfx + "kind." + label)
+	r.Count(pfx + "result." + e)
 	for _, c := range cs {
-		r.Count("c04.content." + c.K + "." + map[bool]string{true: "accepted", false: "rejected"}[err == nil])
+		r.Count(pfx + "content." + c.K + "." + map[bool]string{true: "accepted", false: "rejected"}[err == nil])
 	}
 	if len(cs) > 1 {
-		r.Count("c04.multi." + map[bool]string{true: "accepted", false: "rejected"}[err == nil])
+		r.Count(pfx + "multi." + map[bool]string{true: "accepted", false: "rejected"}[err == nil])
 	}
 	branches[e] = true
 	if err == nil {
 		if pre.String() != post.String() {
 			changed = true
 		}
-		if len(cs) > 1 {
+		if cx.nv {
+			// no privilege rules without validation
+		} else if len(cs) > 1 {
 			s.splitOracle(w, wBefore, stBefore, author, cs, pre, post)
 		} else {
 			for _, v := range oracleC04(pre, post, author, cs) {
@@ -196,10 +218,10 @@ func (cx *c04ctx) step(author, prev int, cs []content, label string) bool {
 				r.Violate("C04", v.sig, "acl.rules."+v.rule, v.desc+" | pre: "+pre.String()+" | post: "+post.String(), append([]string{}, w.lines...))
 			}
 		}
-		if n := len(post.owners()); n != 1 {
+		if n := len(post.owners()); n != 1 && !cx.nv {
 			r.Violate("C04", "", "acl.rules.one-owner", fmt.Sprintf("%d owners after an accepted record: %s", n, post.String()), append([]string{}, w.lines...))
 		}
-	} else if pre.String() != post.String() {
+	} else if pre.String() != post.String() && !cx.nv {
 		// C03: a rejected record changes nothing
 		r.Violate("C03", "", "acl.reject-noop", "rejected record ("+e+") changed the state: "+pre.String()+" -> "+post.String(), append([]string{}, w.lines...))
 	}
@@ -208,6 +230,81 @@ func (cx *c04ctx) step(author, prev int, cs []content, label string) bool {
 		cx.changed = true
 	}
 	return true
+}
+
+// walkNV: one history on a NON-validating list (recordverifier.New(network key), node identity,
+// partial decode): every generated record, valid or not, is offered; verdict, error and state are
+// compared with the model's `v = false` mode (`recn`). This ties the mode the theorems
+// novalidate_agrees / shrink_invariant talk about to the real code.
+func (s *session) walkNV(steps int) {
+	r := s.r
+	w, err := newWorld(s.c, r.Intn(nAccounts), r.Chance(30))
+	if err != nil {
+		r.Fatal("newWorld: " + err.Error())
+	}
+	st, err := list.NewInMemoryStorage(w.root.Id, []*consensusproto.RawRecordWithId{w.root})
+	if err != nil {
+		r.Fatal("storage: " + err.Error())
+	}
+	l, err := list.BuildAclListWithIdentity(s.c.node, st, recordverifier.New(s.c.network.GetPublic()))
+	if err != nil {
+		r.Fatal("list: " + err.Error())
+	}
+	g := &gen{r: r, w: w}
+	g.s = w.snapshot(l)
+	w.lines[0] = "rootn" + strings.TrimPrefix(w.lines[0], "root")
+	if s.useModel {
+		s.q = append(s.q, asked{"", "acl.root", w.lines[0], "ok " + w.snapshotNV(l)})
+	}
+	defer s.flush()
+	cx := &c04ctx{s: s, w: w, ref: l, refSt: st, g: g, branches: map[string]bool{}, nv: true}
+	for i := 0; i < steps && r.TimeLeft(); i++ {
+		author, cs, label := g.next(50)
+		if author < 0 {
+			author = BAD
+		}
+		for k := range cs {
+			sanitize(&cs[k], len(w.recs))
+			if _, live := g.s.Inv[cs[k].Rec]; cs[k].K == "ich" && !live {
+				// without validation this stores a zero-valued invite (nil key); a later read key change
+				// then dereferences it or not depending on Go map iteration order — not reproducible
+				cs[k] = content{K: "nop"}
+			}
+		}
+		if !cx.step(author, len(w.recs)-1, cs, label) {
+			return
+		}
+	}
+	r.Case("nv\n"+strings.Join(w.lines, "\n"), len(w.recs) > 4)
+}
+
+// sanitize replaces the negative placeholders that the dump of a non-validating list can contain
+// (zero-valued entries without id / key) by proper "dangling" / "garbage" references.
+func sanitize(c *content, n int) {
+	fixAcc := func(a int) int {
+		if a < 0 {
+			return BAD
+		}
+		return a
+	}
+	if c.Rec < 0 {
+		c.Rec = n + 4
+	}
+	c.Acc, c.Key, c.SigKey, c.SigAcc = fixAcc(c.Acc), fixAcc(c.Key), fixAcc(c.SigKey), fixAcc(c.SigAcc)
+	for i := range c.Pairs {
+		c.Pairs[i].Acc = fixAcc(c.Pairs[i].Acc)
+	}
+	for i := range c.Accs {
+		c.Accs[i] = fixAcc(c.Accs[i])
+	}
+	if c.Rk != nil {
+		for i := range c.Rk.Accs {
+			c.Rk.Accs[i] = fixAcc(c.Rk.Accs[i])
+		}
+		for i := range c.Rk.Invs {
+			c.Rk.Invs[i] = fixAcc(c.Rk.Invs[i])
+		}
+	}
 }
 
 // walkC04: one history on the reference list; every record goes through oracle and model.
@@ -264,7 +361,12 @@ func Run(r *corr.Run) {
 	s.runScripts()
 	walks := r.Pick(900, 40000)
 	for i := 0; i < walks && r.TimeLeft(); i++ {
-		if i%4 == 3 && s.wants("C03") {
+		if i%7 == 6 && os.Getenv("ACL_NV") != "" {
+			// exploration only (not part of the verdict): without validation the real code can reach
+			// states in which its behaviour depends on Go map iteration order (see notes), so a
+			// model comparison there is not reproducible
+			s.walkNV(30)
+		} else if i%4 == 3 && s.wants("C03") {
 			s.walkC03(30, i%8 == 7)
 		} else if s.wants("C04") || i%4 == 0 {
 			s.walkC04(40)
